@@ -683,6 +683,14 @@ func (e *Exec) frameCheckTarget(f *frame, st *State, t modTarget, ins ssa.Instru
 	}
 	// an embedded struct (sub-object) belongs to the object it is part of
 	root := subRoot(t.obj)
+	// a sub-object address that was given a name: follow the definition
+	for i := 0; i < 8; i++ {
+		if def, ok := e.subAlias[root]; ok {
+			root = subRoot(def)
+		} else {
+			break
+		}
+	}
 	if root != "" && e.allAllocs[root] {
 		return
 	}
